@@ -1,12 +1,12 @@
 INIT SimInit
 NEXT SimNext
 CONSTANTS
-  Hs = {1, 2, 3, 4, 5, 6, 7, 12, 16}
+  Hs = {1, 2, 3, 4, 5, 8, 12, 16}
   Ps = {1, 2, 3}
   Ss = {2, 3, 4}
   Phases = {0, 1, 2, 3}
   MaxMig = 100
-  PlanH = 7
+  PlanH = 4
   Depth = 25
 INVARIANT Emit
 CHECK_DEADLOCK FALSE
